@@ -4,7 +4,9 @@ import (
 	"context"
 	"errors"
 	"fmt"
+	"sync"
 	"testing"
+	"time"
 
 	"github.com/yaricom/goNEAT/v4/experiment"
 	"github.com/yaricom/goNEAT/v4/neat"
@@ -49,10 +51,13 @@ func GenC20() *rapid.Generator[C20Case] {
 		c := C20Case{Genome: gg.Draw(t, "genome"), Trials: rapid.IntRange(1, 5).Draw(t, "trials"), Generations: rapid.IntRange(1, 8).Draw(t, "generations"),
 			Observer: rapid.IntRange(0, 3).Draw(t, "observer") != 0, PreSized: rapid.Bool().Draw(t, "presized"), Parallel: rapid.IntRange(0, 3).Draw(t, "parallel") == 0,
 			PopSize: rapid.IntRange(3, 8).Draw(t, "pop size"), Seed: int64(rapid.IntRange(0, 1<<30).Draw(t, "seed"))}
+		if rapid.IntRange(0, 11).Draw(t, "zero generations") == 5 {
+			c.Generations = 0 // the configured maximum is "no generation at all": trials are started and finished, nothing is evaluated
+		}
 		c.CtxKind = rapid.SampledFrom([]string{"", "", "", "copied", "nested"}).Draw(t, "context kind")
 		if rapid.IntRange(0, 3).Draw(t, "run before") == 0 {
 			c.Prior = true
-			c.PriorSolvedAt = rapid.IntRange(-1, c.Generations-1).Draw(t, "prior solved at")
+			c.PriorSolvedAt = rapid.IntRange(-1, imax(c.Generations-1, -1)).Draw(t, "prior solved at")
 			c.PriorFaultTrial = rapid.IntRange(-1, c.Trials-1).Draw(t, "prior fault trial")
 		}
 		if c.PreSized && rapid.IntRange(0, 2).Draw(t, "longer record") == 0 {
@@ -60,12 +65,15 @@ func GenC20() *rapid.Generator[C20Case] {
 		}
 		for i := 0; i < c.Trials; i++ {
 			s := -1
-			if rapid.IntRange(0, 2).Draw(t, "solved") != 0 {
+			if c.Generations > 0 && rapid.IntRange(0, 2).Draw(t, "solved") != 0 {
 				s = rapid.IntRange(0, c.Generations-1).Draw(t, "solved at")
 			}
 			c.SolvedAt = append(c.SolvedAt, s)
 		}
-		c.Fault = rapid.SampledFrom([]string{"none", "none", "error", "cancel"}).Draw(t, "fault")
+		c.Fault = rapid.SampledFrom([]string{"none", "none", "error", "cancel", "deadline"}).Draw(t, "fault")
+		if c.Generations == 0 {
+			c.Fault = "none"
+		}
 		if c.Fault == "error" {
 			c.ErrKind = rapid.SampledFrom([]string{"plain", "plain", "canceled", "deadline"}).Draw(t, "error kind")
 			c.ErrLate = rapid.Bool().Draw(t, "error after results")
@@ -90,6 +98,35 @@ func (e protoEvent) String() string {
 }
 
 var errInjected = errors.New("injected evaluator failure")
+
+// manualDeadline is a context of the deadline kind whose expiry the harness triggers (no wall clock involved): from then
+// on Done is closed and Err reports context.DeadlineExceeded, as for a context made by context.WithDeadline.
+type manualDeadline struct {
+	parent context.Context
+	done   chan struct{}
+	mu     sync.Mutex
+	err    error
+}
+
+func newManualDeadline(parent context.Context) *manualDeadline {
+	return &manualDeadline{parent: parent, done: make(chan struct{})}
+}
+func (m *manualDeadline) Deadline() (time.Time, bool)   { return time.Unix(4102444800, 0), true }
+func (m *manualDeadline) Done() <-chan struct{}         { return m.done }
+func (m *manualDeadline) Value(k interface{}) interface{} { return m.parent.Value(k) }
+func (m *manualDeadline) Err() error {
+	m.mu.Lock()
+	defer m.mu.Unlock()
+	return m.err
+}
+func (m *manualDeadline) expire() {
+	m.mu.Lock()
+	defer m.mu.Unlock()
+	if m.err == nil {
+		m.err = context.DeadlineExceeded
+		close(m.done)
+	}
+}
 
 // wrappedError is the evaluator's own failure; it may wrap a context error although the run's context is alive (an
 // evaluator that gives its simulation a deadline of its own)
@@ -268,6 +305,15 @@ func CheckC20(c C20Case, rec *Rec) error {
 	opts := o.Build()
 	ctx, cancel := context.WithCancel(context.Background())
 	defer cancel()
+	byDeadline := func(parent context.Context) (context.Context, context.CancelFunc) {
+		if c.Fault == "deadline" {
+			m := newManualDeadline(parent)
+			return m, m.expire
+		}
+		return context.WithCancel(parent)
+	}
+	ctx, cancel = byDeadline(context.Background())
+	defer cancel()
 	switch c.CtxKind {
 	case "copied":
 		used := defaultOpts()
@@ -276,7 +322,7 @@ func CheckC20(c C20Case, rec *Rec) error {
 		_, _ = genetics.NewPopulation(xorStart().Build(), u)
 		_ = u.NeatContext()
 		opts = deriveOptions(u, opts)
-		ctx, cancel = context.WithCancel(opts.NeatContext())
+		ctx, cancel = byDeadline(opts.NeatContext())
 		defer cancel()
 		rec.Class("options copied from a used object, context from the copy")
 	case "nested":
@@ -320,6 +366,9 @@ func CheckC20(c C20Case, rec *Rec) error {
 
 	want, complete := expectedTrace(c)
 	rec.Class("fault:" + c.Fault)
+	if c.Generations == 0 {
+		rec.Class("zero generations configured")
+	}
 	if c.Observer {
 		rec.Class("with observer")
 	} else {
@@ -392,12 +441,16 @@ func CheckC20(c C20Case, rec *Rec) error {
 			if c.ErrLate && c.SolvedAt[c.FaultTrial] == c.FaultGen {
 				rec.Class("evaluator failed in the generation it reported solved")
 			}
-		case "cancel":
+		case "cancel", "deadline":
+			wantErr := context.Canceled
+			if c.Fault == "deadline" {
+				wantErr = context.DeadlineExceeded
+			}
 			lastPlanned := c.FaultTrial == c.Trials-1 && (c.FaultGen == c.Generations-1 || c.SolvedAt[c.FaultTrial] == c.FaultGen)
 			if lastPlanned {
 				rec.Class("cancelled in the very last generation of the run (returned error not asserted)")
-			} else if !errors.Is(err, context.Canceled) {
-				return fmt.Errorf("the cancellation was not returned to the caller: got %v", err)
+			} else if !errors.Is(err, wantErr) {
+				return fmt.Errorf("the context's end (%v) was not returned to the caller: got %v", wantErr, err)
 			}
 		}
 		return nil
